@@ -110,7 +110,10 @@ type Interp struct {
 	cur           *thread
 	symSched      bool
 	switches      int
-	preemptBudget int     // >0: preemption-bounded scheduling (rt.PreemptBound)
+	preemptBudget int  // >0: preemption-bounded scheduling (rt.PreemptBound)
+	memfs         bool // in-memory file system switched on (rt.MemFS)
+	fsFiles       map[string]*memFile
+	fsHandles     map[*value]*memHandle
 	lateBudget    int     // >0: one goroutine may be chosen to start late (rt.LateGoroutine)
 	lateVictim    *thread // the goroutine currently held back
 	lateLeft      int     // how many more times the scheduler may pass it over
